@@ -161,10 +161,37 @@ func WellFormed(id int, seed int64, deadline time.Duration) Run {
 		wgP.Wait()
 		rec.call("x", "close", 0, func() any { q.CloseQueue(); return map[string]any{"t": "none"} })
 	}()
+	await(&run, rec, &wgAll, deadline, &stopObs)
+	rec.mu.Lock()
+	run.History = append([]Event(nil), rec.ev...)
+	rec.mu.Unlock()
+	sort.Slice(run.History, func(i, j int) bool { return run.History[i].Seq < run.History[j].Seq })
+	if run.Done {
+		var added, got = map[int]bool{}, map[int]int{}
+		for _, e := range run.History {
+			if e.E == "inv" && e.Op == "add" {
+				added[e.V] = true
+			}
+			if m, ok := e.R.(map[string]any); ok && m["t"] == "tokok" && m["ok"] == true {
+				got[m["v"].(int)]++
+			}
+		}
+		for v := range added {
+			if got[v] != 1 {
+				run.Lost = append(run.Lost, v)
+			}
+		}
+		sort.Ints(run.Lost)
+	}
+	return run
+}
+
+
+// await waits for every goroutine of the run; a run is declared stuck only if
+// it makes no progress at all: on a loaded machine a slow run is not a blocked one
+func await(run *Run, rec *recorder, wgAll *sync.WaitGroup, deadline time.Duration, stopObs *atomic.Bool) {
 	var finished = make(chan struct{})
 	go func() { wgAll.Wait(); close(finished) }()
-	// a run is declared stuck only if it makes no progress at all: on a loaded
-	// machine a slow run is not a blocked one
 	var waited = 0
 	for !run.Done {
 		select {
@@ -194,27 +221,95 @@ func WellFormed(id int, seed int64, deadline time.Duration) Run {
 			break
 		}
 	}
+}
+
+// Call is one step of a client program.
+type Call struct {
+	Op string `json:"op"`
+	V  int    `json:"v"`
+}
+
+// Program is a small client program (the ones model-checked on QueueImpl.tla):
+// every process runs its calls in order, after the processes it waits for.
+type Program struct {
+	Name  string              `json:"name"`
+	Cap   int                 `json:"cap"`
+	Procs map[string][]Call   `json:"procs"`
+	After map[string][]string `json:"after"`
+}
+
+// RunProgram runs the program free (no scheduler): the Go scheduler picks the
+// interleaving, a seeded jitter varies it; the run ends when every process is
+// done or when nothing moves any more (a real end: what is left is blocked).
+func RunProgram(id int, prog Program, seed int64, deadline time.Duration) Run {
+	var rnd = rand.New(rand.NewSource(seed))
+	var run = Run{ID: id, Cap: prog.Cap}
+	var q = col.Queue[int](cdc.Notation().Make()).MakeWithCapacity(uint(prog.Cap))
+	var rec = &recorder{}
+	var wgAll sync.WaitGroup
+	var done = map[string]chan struct{}{}
+	var names []string
+	for name := range prog.Procs {
+		names = append(names, name)
+		done[name] = make(chan struct{})
+	}
+	sort.Strings(names)
+	for _, name := range names {
+		var name = name
+		var calls = prog.Procs[name]
+		var jitter = rnd.Int63()
+		wgAll.Add(1)
+		go func() {
+			defer wgAll.Done()
+			defer close(done[name])
+			for _, dep := range prog.After[name] {
+				<-done[dep]
+			}
+			var r = rand.New(rand.NewSource(jitter))
+			for _, c := range calls {
+				var c = c
+				switch r.Intn(4) {
+				case 0:
+					runtime.Gosched()
+				case 1:
+					time.Sleep(time.Duration(r.Intn(50)) * time.Microsecond)
+				}
+				var _, p = rec.call(name, c.Op, c.V, func() any {
+					switch c.Op {
+					case "add":
+						q.AddValue(c.V)
+					case "rem":
+						var v, k = q.RemoveHead()
+						return map[string]any{"t": "tokok", "v": v, "ok": k}
+					case "close":
+						q.CloseQueue()
+					case "clear":
+						q.RemoveAll()
+					case "size":
+						return map[string]any{"t": "int", "v": q.GetSize()}
+					case "empty":
+						return map[string]any{"t": "bool", "v": q.IsEmpty()}
+					case "array":
+						var a = q.AsArray()
+						if a == nil {
+							a = []int{}
+						}
+						return map[string]any{"t": "seq", "v": a}
+					}
+					return map[string]any{"t": "none"}
+				})
+				if p {
+					return
+				}
+			}
+		}()
+	}
+	var stopObs atomic.Bool
+	await(&run, rec, &wgAll, deadline, &stopObs)
 	rec.mu.Lock()
 	run.History = append([]Event(nil), rec.ev...)
 	rec.mu.Unlock()
 	sort.Slice(run.History, func(i, j int) bool { return run.History[i].Seq < run.History[j].Seq })
-	if run.Done {
-		var added, got = map[int]bool{}, map[int]int{}
-		for _, e := range run.History {
-			if e.E == "inv" && e.Op == "add" {
-				added[e.V] = true
-			}
-			if m, ok := e.R.(map[string]any); ok && m["t"] == "tokok" && m["ok"] == true {
-				got[m["v"].(int)]++
-			}
-		}
-		for v := range added {
-			if got[v] != 1 {
-				run.Lost = append(run.Lost, v)
-			}
-		}
-		sort.Ints(run.Lost)
-	}
 	return run
 }
 
